@@ -825,6 +825,7 @@ func genAttestation(t *rapid.T, endorsement []byte) ([]byte, string) {
 func genAttestationShape(t *rapid.T, endorsement []byte) ([]byte, string) {
 	kind := rapid.SampledFrom([]string{"snp/tpm", "snp/snpproto", "snp/raw", "snp/raw-hex", "snp/raw-b64", "snp/report-only", "snp/certtable-only", "tdx/raw", "tdx/tpm", "tdx/raw-hex", "random", "empty", "partial-proto"}).Draw(t, "attKind")
 	var b []byte
+	kindSuffix := ""
 	extras := map[string][]byte{}
 	if rapid.Bool().Draw(t, "withExtra") {
 		extras[sev.GCEFwCertGUID] = endorsement
@@ -866,6 +867,24 @@ func genAttestationShape(t *rapid.T, endorsement []byte) ([]byte, string) {
 		}
 	case "tdx/raw":
 		b = attest.TdxRawQuote(mrtd)
+		if rapid.IntRange(0, 2).Draw(t, "tdxInnerLength") == 0 {
+			// the quote nests length-prefixed structures (signed data size at 632; certification data
+			// type+size after the 128 signature/key bytes; QE auth data size after the 384+64 bytes of
+			// the QE report and its signature): plant a hostile value into one of the length fields
+			off := rapid.SampledFrom([]int{632, 636 + 128, 636 + 128 + 2, 636 + 128 + 6 + 384 + 64, 636 + 128 + 6 + 384 + 64 + 2 + 32, 636 + 128 + 6 + 384 + 64 + 2 + 32 + 2}).Draw(t, "lenField")
+			if off+4 <= len(b) {
+				v := rapid.SampledFrom(hostile32).Draw(t, "lenValue")
+				if rapid.Bool().Draw(t, "small") {
+					v = uint32(rapid.IntRange(0, 700).Draw(t, "smallLen"))
+				}
+				if rapid.Bool().Draw(t, "as16") {
+					binary.LittleEndian.PutUint16(b[off:], uint16(v))
+				} else {
+					binary.LittleEndian.PutUint32(b[off:], v)
+				}
+				kindSuffix = "+inner-length"
+			}
+		}
 	case "tdx/tpm":
 		tf, _ := attest.TdxFormats(mrtd)
 		b = tf["tpm"]
@@ -906,7 +925,7 @@ func genAttestationShape(t *rapid.T, endorsement []byte) ([]byte, string) {
 		}
 		kind += "+hostile-table"
 	}
-	return b, kind
+	return b, kind + kindSuffix
 }
 
 // ---------------------------------------------------------------------------------------------
@@ -1509,6 +1528,10 @@ func TestRegressions(t *testing.T) {
 		{"sp800155-rim-locator-size-0xffffffff", req{Entry: "SP800155Event3"}, [][]byte{spBody(0xffffffff)}},
 		{"sp800155-rim-locator-size-0x10000000/in-log", req{Entry: "CryptoAgileLog.Unmarshal"}, [][]byte{spLog(0x10000000)}},
 		{"no-timestamp/TdxValidate", req{Entry: "TdxValidate"}, [][]byte{attest.TdxRawQuote(mrtd), noTsBytes}},
+		// raw TDX quotes whose inner length fields disagree with what is left (dependency finding)
+		{"known/tdx-quote-signed-data-size-10", req{Entry: "extract.Attestation"}, [][]byte{tdxQuoteSignedSize(10)}},
+		{"known/tdx-quote-signed-data-size-10/TdxValidate", req{Entry: "TdxValidate"}, [][]byte{tdxQuoteSignedSize(10), tdxOnlyBytes}},
+		{"known/tdx-quote-signed-data-size-200", req{Entry: "extract.Attestation"}, [][]byte{tdxQuoteSignedSize(200)}},
 		{"known/certtable-offset-wrap", req{Entry: "extractsev.FromCertTable"}, [][]byte{wrapTable()}},
 		{"known/certtable-offset-wrap/attestation", req{Entry: "extract.Attestation"}, [][]byte{wrapTable()}},
 		{"digest-count-0x10000000", req{Entry: "CryptoAgileLog.Unmarshal"}, [][]byte{bigCount(0x10000000)}},
@@ -1568,6 +1591,14 @@ func mustMarshal(m proto.Message) []byte {
 
 func wrapSnp(at *spb.Attestation) proto.Message {
 	return &tpmpb.Attestation{TeeAttestation: &tpmpb.Attestation_SevSnpAttestation{SevSnpAttestation: at}}
+}
+
+// tdxQuoteSignedSize is the sample raw TDX quote (full length) whose signed-data size field (offset
+// 632) says n: the dependency's converter slices the n bytes as if the whole structure were there.
+func tdxQuoteSignedSize(n uint32) []byte {
+	q := attest.TdxRawQuote(mrtd)
+	binary.LittleEndian.PutUint32(q[632:], n)
+	return q
 }
 
 // wrapTable is an AMD certificate table whose single entry has offset+length wrapping 32 bits.
